@@ -526,10 +526,27 @@ package dig
 //@        && idx < len(at(storesToRoot_1, S.anc[j].providers[k])) && $recv == at(storesToRoot_1, S.anc[j].providers[k][idx])
 
 //@ func newErrMissingTypes(c, k) (e)
-//@   trusted
-//@   requires c != nil && k.t != nil
+//@   requires isScope(c) && k.t != nil
 //@   allocates plain
 //@   ensures[C04:missing-type-names-the-key] len(e) == 1 && e[0].Key == k && fresh(e)
+//@   loop range knownTypes #1: invariant fresh(suggestions) && (forall i int :: 0 <= i && i < len(knownTypes) ==> knownTypes[i] != nil)
+//@   loop range knownTypes #2: invariant fresh(suggestions) && (forall i int :: 0 <= i && i < len(knownTypes) ==> knownTypes[i] != nil)
+//@   loop range suggestions #1: invariant fresh(suggestions)
+//@   loop range suggestions #1: invariant mt.Key == old(k)
+//@   loop range suggestions #1: invariant fresh(mt.suggestions) || mt.suggestions == nil
+
+// the types some constructor of the scope provides; none of them is nil
+// because keys are only made from the result types of functions (assumed)
+//@ func (s *Scope) knownTypes() (r)
+//@   trusted
+//@   requires s != nil
+//@   allocates plain
+//@   ensures (fresh(r) || len(r) == 0) && (forall i int :: 0 <= i && i < len(r) ==> r[i] != nil)
+
+// reflect.ArrayOf without its panic (F11)
+//@ func arrayOf(length, elem) (t, ok)
+//@   requires length >= 0 && elem != nil
+//@   ensures[C14:an-array-type-is-only-built-when-it-can-exist] ok ==> t != nil && kind(t) == kArray()
 
 //@ func (s *Scope) getProviders(k) (r)
 //@   loop range nodes #1: complete[C09:every-provider-returned]
